@@ -25,11 +25,14 @@ func (s *DiscoveryService) FindServers(sc *uasc.SecureChannel, r ua.Request, req
 		return nil, err
 	}
 
+	// a server without any enabled security setting has no endpoints to take the description from
+	servers := []*ua.ApplicationDescription{}
+	if eps := s.srv.Endpoints(); len(eps) > 0 {
+		servers = append(servers, eps[0].Server)
+	}
 	response := &ua.FindServersResponse{
 		ResponseHeader: responseHeader(req.RequestHeader.RequestHandle, ua.StatusOK),
-		Servers: []*ua.ApplicationDescription{
-			s.srv.Endpoints()[0].Server,
-		},
+		Servers:        servers,
 	}
 
 	return response, nil
